@@ -276,6 +276,9 @@ int libxmp_decrunch(HIO_HANDLE *h, const char *filename, char **temp)
 	/* Highly compressible modules pack to well under 100 bytes: only
 	 * require what the signature tests below look at. */
 	memset(b, 0, sizeof(b));
+	/* A caller's stream need not be positioned at its start. */
+	/* coverity[check_return] */
+	hio_seek(h, 0, SEEK_SET);
 	headersize = hio_read(b, 1, 1024, h);
 	if (headersize < 22) {	/* minimum valid packed file size */
 		return 0;
